@@ -188,5 +188,8 @@ CodePairs(tbl, w, Near(_, _), UseBreak) ==
 DeclPairs(tbl, w, Near(_, _)) ==
   LET ev == SortJ(tbl) IN {<<i, j>> \in (1..Len(ev)) \X (1..Len(ev)) :
         i < j /\ ev[i][1] # ev[j][1] /\ TimeClose(ev[i], ev[j], w) /\ (Near(ev[i], ev[j]) \/ Near(ev[j], ev[i]))}
+RECURSIVE SetToSortedPairs(_)
+SetToSortedPairs(s) == IF s = {} THEN <<>>
+                       ELSE LET m == CHOOSE x \in s : \A y \in s : x = y \/ PairLess(x, y) IN <<m>> \o SetToSortedPairs(s \ {m})
 InvolvedIn(pairs) == {p[1] : p \in pairs} \cup {p[2] : p \in pairs}
 =============================================================================
